@@ -239,8 +239,10 @@ struct Encoding<Table, EnableIfHasEntryList<Table>> : EncodingIO<Table> {
       if (!status)
         return status;
 
-      // Default construct the entry;
-      *entry = T{};
+      // Default construct the entry's value in place. Assigning T{} would
+      // select Optional's converting assignment when T is itself an Optional
+      // and leave the entry empty.
+      *entry = Optional<T>{InPlace{}};
 
       // Use a BoundedReader to handle any padding that might follow the
       // value and catch invalid sizes while decoding inside the binary
